@@ -830,6 +830,13 @@ class Shadow:
                     pp = pe['ps'].get(p['n'].lower()) if pe else None
                     x['ps'][p['n'].lower()] = {'n': p['n'], 'q': self.quals(p.get('q', []), pp['q'] if pp else {}),
                                                'inherited': False}
+                if pe:
+                    # parameters of the overridden method that the overriding one does not declare
+                    for pln, pp in pe['ps'].items():
+                        if pln not in x['ps']:
+                            x['ps'][pln] = dict(pp, inherited=True,
+                                                q={k2: dict(q, p=True, p_either=False)
+                                                   for k2, q in pp['q'].items() if q['ts']})
                 r[kind][eln] = x
             for eln, pe in inh.items():
                 if eln not in r[kind]:
@@ -979,6 +986,20 @@ def oracle(run, decls, ops, outs, final_names, final_insts, toklist, case):
     for op, out in zip(ops, outs):
         o = op['op']
         ok = 'ok' in out
+        if o in ('create', 'add', 'modify', 'mofCreate') and not ok:
+            # a refused declaration must be refused with a documented exception: CIMError
+            # (add_cimobjects also documents ValueError)
+            exc = out.get('exc')
+            if exc != 'CIMError' and not (o == 'add' and exc == 'ValueError'):
+                c_ = op['c']
+                elems = c_['props'] + c_['meths'] + [p_ for m_ in c_['meths'] for p_ in m_.get('ps', [])]
+                if any(q['n'].lower() == 'override' and q['v'] is None for e in elems for q in e.get('q', [])):
+                    cause = 'override-null'
+                elif any(e.get('ty') == 'reference' and not e.get('ref') for e in elems):
+                    cause = 'reference-without-class'
+                else:
+                    cause = 'other'
+                run.violate({'kind': 'undocumented_exception', 'op': o, 'exc': exc, 'cause': cause}, case, out)
         if o in ('create', 'add', 'modify', 'mofCreate') and ok:
             for e in op['c']['props'] + op['c']['meths']:
                 if e.get('org'):
@@ -1159,14 +1180,14 @@ def mof_text(decls, classes, rng=None, forms=None):
     return '\n'.join(out)
 
 
-def essence(k):
+def essence(k, param_quals=True):
     """what CreateClass-built and MOF-built repositories must agree on (flavors travel differently in MOF)"""
     def qs(l):
         return sorted([fcps(q['n']).lower(), json.dumps(q['v']), bool(q['p'])] for q in l)
 
     def el(e):
         return [fcps(e['n']).lower(), fcps(e['org']).lower() if e['org'] else None, bool(e['p']), qs(e['q']),
-                sorted([fcps(p['n']).lower(), qs(p['q'])] for p in e['ps'])]
+                sorted([fcps(p['n']).lower(), qs(p['q']) if param_quals else None] for p in e['ps'])]
     return {'sup': fcps(k['sup']).lower() if k['sup'] else None, 'q': qs(k['q']),
             'props': sorted(el(e) for e in k['props']), 'meths': sorted(el(e) for e in k['meths'])}
 
@@ -1218,8 +1239,12 @@ def mof_case(seed):
         b = conn2.GetClass(c['n'], LocalOnly=False, IncludeQualifiers=True, IncludeClassOrigin=True)
         wa, wb = w_cls(a, tok), w_cls(b, tok)
         res['full'][c['n'].lower()] = wb
-        if essence(wa) != essence(wb):
+        if essence(wa, False) != essence(wb, False):
             res['diffs'].append(c['n'])
+        elif essence(wa) != essence(wb):
+            # only qualifiers of parameters differ: the MOF compiler gives them the declaration's flavors,
+            # CreateClass leaves them unresolved on new methods (open finding C12-param-qualifiers-unresolved)
+            res.setdefault('param_diffs', []).append(c['n'])
         # the hierarchy queries must agree as well
         ea = sorted(n.lower() for n in real.conn.EnumerateClassNames(ClassName=c['n'], DeepInheritance=True))
         eb = sorted(n.lower() for n in conn2.EnumerateClassNames(ClassName=c['n'], DeepInheritance=True))
@@ -1503,6 +1528,9 @@ def run(run):
         case = {'mof_seed': r['seed']}
         for cn in r['diffs']:
             run.violate({'kind': 'mof_built_class_differs_from_createclass_built'}, case, {'class': cn})
+        for cn in r.get('param_diffs', []):
+            run.violate({'kind': 'mof_built_class_differs_from_createclass_built', 'at': 'parameter-qualifier'},
+                        case, {'class': cn})
         sh = Shadow(r['decls'])
         tokmap = {(a, b): t for a, b, t in r['toklist']}
 
